@@ -44,6 +44,9 @@ def lean_rat(x):
     x = F(x)
     return '(%d : Rat)' % x.numerator if x.denominator == 1 else '((%d : Rat) / %d)' % (x.numerator, x.denominator)
 
+def lean_chars(s):
+    return '[' + ', '.join("'%s'" % ("\\'" if ch == "'" else '\\\\' if ch == '\\' else ch) for ch in s) + ']'
+
 def lean_pows(p):
     return '[' + ', '.join('(%s, %s)' % (lean_str(b), lean_rat(e)) for b, e in sorted(p.items())) + ']'
 
@@ -105,9 +108,9 @@ def generated_text(entries, defs):
     L += [']', '', '/-- the unit definitions of SI.py in source order -/', 'def unitDefs : List UDef := [']
     items = []
     for d in defs:
-        if d[0] == 'str': items.append('  .str %s %s' % (lean_str(d[1]), lean_str(d[2])))
-        elif d[0] == 'item': items.append('  .item %s %s' % (lean_str(d[1]), lean_str(d[2])))
-        else: items.append('  .wrap %s ⟨%s, %s⟩' % (lean_str(d[1]), lean_pows(d[2]), lean_rat(d[3])))
+        if d[0] == 'str': items.append('  .str %s %s' % (lean_chars(d[1]), lean_chars(d[2])))
+        elif d[0] == 'item': items.append('  .item %s %s' % (lean_chars(d[1]), lean_chars(d[2])))
+        else: items.append('  .wrap %s ⟨%s, %s⟩' % (lean_chars(d[1]), lean_pows(d[2]), lean_rat(d[3])))
     L += [',\n'.join(items), ']', '', 'end NutilsVerif.C20.Generated', '']
     return '\n'.join(L)
 
